@@ -5,6 +5,11 @@ Reference code: pbt/oracles/nearest_image.py (numpy only) plus the few lines bel
 function it judges, except the `displacement` clause which (as the property says) compares displacement()
 with dvect() atom by atom *in addition to* the independent lattice / 27-candidate oracles.
 
+Every clause also runs on objects with a HISTORY (Setup / oracle_displacement): the Box object first describes another
+cell, the judged functions are called on it (and judged by judge_pairs with the same oracles), the same object is then
+changed in place through a public setter and only then the case proper is evaluated; and on the documented input forms
+(read-only / column-major / integer-typed arrays, whole-number positions that Atoms stores as integers).
+
 Tolerances (derived, no calibration constant):
   every candidate component  d0_j + x b0_j + y b1_j + z b2_j  is formed with <= 4 roundings of quantities bounded
   by  sc = |d0| + |b0| + |b1| + |b2|,  so atomman's and my value of the same image differ by <= 4 eps sc per
@@ -23,10 +28,16 @@ RULE = ("cells as C01 (LAMMPS triangular form, lengths 0.5-50, tilts up to 1.5 l
         "rotation and origin), plus dyadic cells (all arithmetic exact, exact ties and faces) and integer cells with "
         "integer-valued float Cartesian points; point sets one-to-one / one-to-many (either side) / many-to-many, 70 % "
         "inside [0,1]^3 (faces included), 30 % in [-3,4]^3, partly built as 'near partner wrapped through a face'; "
-        "inputs spelled as ndarray / strided view / list / tuple / int-typed list, through am.dvect, am.dmag, System.dvect/dmag "
-        "with float positions, with atom indices (int, numpy int, list, array, slice, negative, boolean mask) and mixed; "
-        "EVERY case is evaluated under all 8 "
-        "periodicity settings.  Non-trivial: under at least one setting with a periodic axis the winning image of "
+        "inputs spelled as ndarray / strided view / column-major / read-only / int-typed ndarray / list / tuple / int-typed list, "
+        "through am.dvect, am.dmag, System.dvect/dmag "
+        "with float positions, with atom indices (int, numpy int, list, array, slice, negative, boolean mask) and mixed, on systems "
+        "that store whole-number positions as integers; 40 % of the cases on objects with a HISTORY: the Box object first describes "
+        "another cell, dvect/dmag are called (and judged) in that state, a short-lived other Box is used, and the same Box is then "
+        "changed in place into the cell of the case through every public way (vects=, set(...) in its five forms, set_vectors, "
+        "System.box_set with and without scale, System.wrap) and the atoms are given their positions through every public setter; "
+        "displacement(): the same histories on both systems, systems built with scale=True / safecopy / a shared Box, "
+        "whole-number positions stored as integers; EVERY case is evaluated under all 8 "
+        "periodicity settings (order varied).  Non-trivial: under at least one setting with a periodic axis the winning image of "
         "at least one pair is not the direct separation (displacement: same, with a reference cell chosen)")
 ASSUMPTIONS = ["numpy linear algebra is correct",
                "Box.vects / Box.origin return the cell that dvect documents to use (Box is judged by C01); the oracle "
@@ -53,6 +64,16 @@ def _spell(P, flat, how):
         W = np.zeros(A.shape[:-1] + (6,), dtype=float)
         W[..., ::2] = A
         return W[..., ::2]
+    if how == 'readonly':   # the caller's array must not be written to
+        R = np.array(A, dtype=float)
+        R.setflags(write=False)
+        return R
+    if how == 'forder':     # column-major memory layout
+        return np.asfortranarray(np.array(A, dtype=float))
+    if how == 'intarray':   # integer-typed ndarray (only for the free functions: System.* documents ints as indices)
+        if np.all(A == np.rint(A)):
+            return np.rint(A).astype(np.int64)
+        return np.array(A, dtype=float)
     if how == 'intlist':    # plain Python ints (only for the free functions: System.* documents ints as indices)
         if np.all(A == np.rint(A)):
             return np.rint(A).astype(int).tolist()
@@ -88,24 +109,249 @@ def _index(lo, n, natoms, how):
     return ids
 
 
+# ----------------------------------------------------------------------------- object history (shared by all clauses)
+
+def _int_form(P, form):
+    """whole-number positions in an integer-typed spelling (Atoms then stores them as an integer array)"""
+    I = np.rint(P).astype(np.int64)
+    if form == 'intlist':
+        return I.tolist()
+    if form == 'int32':
+        return I.astype(np.int32)
+    return I
+
+
+def _angle(u, v):
+    return float(np.degrees(np.arccos(np.dot(u, v) / (np.linalg.norm(u) * np.linalg.norm(v)))))
+
+
+def _peek(box):
+    """derived Box quantities (one of them, reciprocal_vects, is cached inside the Box)"""
+    return (box.reciprocal_vects, box.volume, box.a, box.alpha, box.cvect, box.is_lammps_norm())
+
+
+def mutate_box(box, system, how, cell, pbcw):
+    """turn the Box OBJECT `box` (held by `system`, if there is one) in place into `cell` through the public way `how`;
+    'wrap' instead lets System.wrap() extend the box along its non-periodic directions.  Returns the way actually used."""
+    Vt, ot = gens.cell_vects(cell), gens.cell_origin(cell)
+    if how in ('set_lengths', 'set_hi_los', 'set_abc') and (cell.get('rot') or cell.get('lefthanded')):
+        how = 'set_vects'           # those three describe LAMMPS-oriented cells only
+    if system is None and (how.startswith('sys_') or how == 'wrap'):
+        raise HarnessError('history %r needs a System' % how)
+    lx, ly, lz, xy, xz, yz = (float(cell[k]) for k in ('lx', 'ly', 'lz', 'xy', 'xz', 'yz'))
+    if how == 'vects=':
+        box.vects = Vt
+        box.origin = ot
+    elif how == 'sys_box_vects=':
+        system.box.vects = Vt.tolist()
+        system.box.origin = ot.tolist()
+    elif how == 'set_vects':
+        box.set(vects=Vt.tolist(), origin=ot.tolist())
+    elif how == 'set_avect':
+        box.set(avect=Vt[0], bvect=Vt[1], cvect=Vt[2], origin=ot)
+    elif how == 'set_vectors':
+        box.set_vectors(Vt[0].tolist(), Vt[1].tolist(), Vt[2].tolist(), origin=ot.tolist())
+    elif how == 'set_lengths':
+        box.set(lx=lx, ly=ly, lz=lz, xy=xy, xz=xz, yz=yz, origin=ot)
+    elif how == 'set_hi_los':
+        box.set(xlo=ot[0], xhi=ot[0] + lx, ylo=ot[1], yhi=ot[1] + ly, zlo=ot[2], zhi=ot[2] + lz, xy=xy, xz=xz, yz=yz)
+    elif how == 'set_abc':
+        box.set(a=float(np.linalg.norm(Vt[0])), b=float(np.linalg.norm(Vt[1])), c=float(np.linalg.norm(Vt[2])),
+                alpha=_angle(Vt[1], Vt[2]), beta=_angle(Vt[0], Vt[2]), gamma=_angle(Vt[0], Vt[1]), origin=ot)
+    elif how == 'sys_box_set':
+        system.box_set(vects=Vt, origin=ot)
+    elif how == 'sys_box_set_scale':
+        system.box_set(vects=Vt, origin=ot, scale=True)
+    elif how == 'wrap':
+        system.pbc = pbcw
+        system.wrap()
+    else:
+        raise HarnessError('unknown history step %r' % how)
+    return how
+
+
+# ways that leave atoms.pos alone (the only ones used when the positions are stored as integers: assigning to an
+# integer-typed per-atom property keeps its dtype - documented Atoms behaviour "new values are saved over the old ones" -
+# so moving such atoms is not meaningful and is kept out of the history)
+_STILL = ('vects=', 'sys_box_vects=', 'set_vects', 'set_avect', 'set_vectors', 'set_lengths', 'set_hi_los', 'set_abc', 'sys_box_set')
+
+
+def set_positions(system, P, S, how, moved_by_scale):
+    """give the atoms of `system` the Cartesian positions P (= relative S in the current box) through a public setter"""
+    if how == 'keep' and not moved_by_scale:
+        how = 'slice'
+    if how == 'prop_scaled' and S is None:
+        how = 'prop'
+    if how == 'keep':           # box_set(scale=True) has moved the atoms along with the box: judge what it left
+        pass
+    elif how == 'slice':
+        system.atoms.pos[:] = P
+    elif how == 'attr':
+        system.atoms.pos = np.array(P)
+    elif how == 'view':
+        system.atoms.view['pos'] = P.tolist()
+    elif how == 'prop':
+        system.atoms_prop('pos', value=np.array(P))
+    elif how == 'prop_scaled':
+        system.atoms_prop('pos', value=np.array(S), scale=True)
+    else:
+        raise HarnessError('unknown position setter %r' % how)
+    return how
+
+
+def wrap_pbc(i):
+    """periodicity for a history wrap(): never all three periodic, so that the box is extended"""
+    return PBCS[i % 7]
+
+
+def judge_pairs(d, m, B0, B1, V, pbc, where):
+    """the lattice, 27-candidate and length oracles for one call of dvect (d) and/or dmag (m) on pairs B0[i] -> B1[i]"""
+    D0 = B1 - B0
+    sc = np.linalg.norm(D0, axis=1) + float(np.linalg.norm(V, axis=1).sum())
+    atol = 32 * EPS * sc
+    _, C, L27 = candidates(D0, V, pbc)
+    Ld = None
+    if d is not None:
+        d = np.asarray(d, dtype=float).reshape(-1, 3)
+        require(d.shape == D0.shape, lambda: '%s: dvect returned %d rows for %d pairs' % (where, len(d), len(D0)))
+        check_lattice(d, D0, V, np.linalg.inv(V), pbc, sc, float(np.linalg.cond(V)), where)
+        Ld = check_best27(d, L27, atol, where, C)
+    if m is not None:
+        m = np.asarray(m, dtype=float).reshape(-1)
+        require(m.shape == (len(D0),), lambda: '%s: dmag returned %d values for %d pairs' % (where, len(m), len(D0)))
+        exc = m[:, None] - L27 * (1 + 1e-12) - atol[:, None]
+        if np.any(exc > 0):
+            i, j = np.unravel_index(int(np.argmax(exc)), exc.shape)
+            raise Violation('%s: pair %d: dmag = %.17g is longer than candidate #%d of length %.17g' % (where, i, m[i], j, L27[i, j]))
+        # and it is the length of a lattice image: not shorter than the shortest of the candidates unless a farther image wins,
+        # which cannot be decided here; compared with |dvect| when both were asked for
+        if Ld is not None:
+            diff = np.abs(m - Ld)
+            lim = 1e-12 * Ld + atol
+            if np.any(diff > lim):
+                i = int(np.argmax(diff - lim))
+                raise Violation('%s: pair %d: dmag = %.17g but |dvect| = %.17g' % (where, i, m[i], Ld[i]))
+
+
+def _ghost(am, cell, pbc):
+    """a short-lived other Box is used by both functions and dropped (its id may be taken over by the next Box)"""
+    g = am.Box(vects=gens.cell_vects(cell), origin=gens.cell_origin(cell))
+    V = np.array(g.vects, dtype=float)
+    B0 = np.array([[0.1, 0.2, 0.3]]) @ V + np.array(g.origin)
+    B1 = np.array([[0.9, 0.8, 0.1]]) @ V + np.array(g.origin)
+    judge_pairs(am.dvect(B0, B1, g, pbc), am.dmag(B0, B1, g, pbc), B0, B1, V, pbc, 'short-lived box pbc=%r' % (pbc,))
+    del g
+
+
 class Setup:
     """atomman objects and reference numbers for one pairs case"""
 
     def __init__(self, case):
         import atomman as am
         self.am = am
+        self.case = case
+        self.route = case['route']
         c = case['cell']
-        self.box = am.Box(vects=gens.cell_vects(c), origin=gens.cell_origin(c))
+        hist = case.get('hist')
+        cart = case['cart']
+        A0, A1 = np.array(case['p0'], dtype=float), np.array(case['p1'], dtype=float)
+        self.n0, self.n1 = len(A0), len(A1)
+        self.natoms = self.n0 + self.n1
+        whole = cart and bool(np.all(A0 == np.rint(A0)) and np.all(A1 == np.rint(A1)))
+        self.intstore = whole and self.route != 'func' and case.get('postype', 'float') != 'float'
+        self.labs = set()
+        how = hist['how'] if hist else None
+        if hist and self.intstore and how not in _STILL:
+            how = 'sys_box_set'
+        need_sys = self.route != 'func' or (hist is not None and (how.startswith('sys_') or how == 'wrap' or hist['wform'] == 'sys'))
+
+        def cartesian(V, o, widen=False):
+            if cart and not widen:
+                return A0, A1
+            if cart:
+                inv = np.linalg.inv(V)
+                R0, R1 = (A0 - o) @ inv, (A1 - o) @ inv
+            else:
+                R0, R1 = A0, A1
+            if widen:       # most atoms outside the box, so that wrap() has something to do
+                R0, R1 = 1.5 * R0 - 0.25, 1.5 * R1 - 0.25
+            return R0 @ V + o, R1 @ V + o
+
+        # ---- the Box object in its first state
+        if hist is None:
+            first = c
+        else:
+            pbcw = wrap_pbc(hist['wpbc']) if how == 'wrap' else PBCS[hist['wpbc']]
+            if hist.get('ghost'):
+                _ghost(am, hist['cell'], pbcw)
+            first = c if how == 'wrap' else hist['cell']
+        self.box = am.Box(vects=gens.cell_vects(first), origin=gens.cell_origin(first))
+        self.system = None
+        if need_sys:
+            Vf, of = np.array(self.box.vects, dtype=float), np.array(self.box.origin, dtype=float)
+            Q0, Q1 = cartesian(Vf, of, widen=(how == 'wrap'))
+            pos = np.vstack([Q0, Q1])
+            if self.intstore:
+                pos = _int_form(pos, case['postype'])
+            self.system = am.System(atoms=am.Atoms(pos=pos), box=self.box, pbc=[True, True, True])
+            if self.intstore:
+                # (since fix 2a7c2bf Atoms stores whole-number input as floats; integer storage is labelled when it still occurs)
+                self.labs.add('int_stored_positions' if self.system.atoms.pos.dtype.kind in 'iu' else 'int_given_positions')
+        # ---- history on these objects
+        if hist is not None:
+            self.labs.add('hist')
+            Vf, of = np.array(self.box.vects, dtype=float), np.array(self.box.origin, dtype=float)
+            if hist.get('peek'):
+                _peek(self.box)
+            if hist['warm'] != 'none':
+                Q0, Q1 = cartesian(Vf, of, widen=(how == 'wrap'))
+                N = max(self.n0, self.n1)
+                B0 = np.broadcast_to(Q0, (N, 3)) if self.n0 == 1 else Q0
+                B1 = np.broadcast_to(Q1, (N, 3)) if self.n1 == 1 else Q1
+                wd, wm = hist['warm'] in ('dvect', 'both'), hist['warm'] in ('dmag', 'both')
+                where = 'before the box was changed in place [%s] pbc=%r' % (hist['wform'], pbcw)
+                d = m = None
+                if hist['wform'] == 'sys':
+                    self.system.pbc = pbcw
+                    i0, i1 = list(range(self.n0)), list(range(self.n0, self.natoms))
+                    if wm:
+                        m = self.system.dmag(i0, i1)
+                    if wd:
+                        d = self.system.dvect(i0, i1)
+                else:
+                    if wm:
+                        m = am.dmag(Q0, Q1, self.box, pbcw)
+                    if wd:
+                        d = am.dvect(Q0, Q1, self.box, pbcw)
+                judge_pairs(d, m, B0, B1, Vf, pbcw, where)
+                self.labs.add('hist_warm_' + hist['warm'])
+                self.labs.add('hist_warm')
+            how = mutate_box(self.box, self.system, how, c, pbcw)
+            self.labs.add('hist_' + how)
+            if hist.get('peek'):
+                _peek(self.box)
+        # ---- the state that is judged
         self.V = np.array(self.box.vects, dtype=float)
         self.o = np.array(self.box.origin, dtype=float)
-        A0, A1 = np.array(case['p0'], dtype=float), np.array(case['p1'], dtype=float)
-        if case['cart']:
+        if hist is not None and np.abs(self.V - Vf).max() > 1e-6 * np.abs(Vf).max():
+            self.labs.add('hist_changed')
+            if 'hist_warm' in self.labs:
+                self.labs.add('hist_warm_changed')
+        if cart:
             self.P0, self.P1 = A0, A1
             self.S0 = self.S1 = None
         else:
             self.S0, self.S1 = A0, A1
             self.P0, self.P1 = A0 @ self.V + self.o, A1 @ self.V + self.o
-        self.n0, self.n1 = len(self.P0), len(self.P1)
+        if self.system is not None:
+            if hist is not None and not self.intstore:
+                sp = set_positions(self.system, np.vstack([self.P0, self.P1]),
+                                   None if cart else np.vstack([self.S0, self.S1]), hist['setpos'], how == 'sys_box_set_scale')
+                self.labs.add('setpos_' + sp)
+            # the positions the System really holds are the ones the separation is judged for
+            held = np.array(self.system.atoms.pos, dtype=float)
+            require(held.shape == (self.natoms, 3), lambda: 'harness: system holds positions of shape %r' % (held.shape,))
+            self.P0, self.P1 = held[:self.n0], held[self.n0:]
         self.N = max(self.n0, self.n1)
         self.B0 = np.broadcast_to(self.P0, (self.N, 3)) if self.n0 == 1 else self.P0
         self.B1 = np.broadcast_to(self.P1, (self.N, 3)) if self.n1 == 1 else self.P1
@@ -115,24 +361,19 @@ class Setup:
         self.atol = 32 * EPS * self.sc
         self.inv = np.linalg.inv(self.V)
         self.cond = float(np.linalg.cond(self.V))
-        self.route = case['route']
-        self.case = case
-        self.system = None
-        if self.route != 'func':
-            pos = np.vstack([self.P0, self.P1])
-            self.system = am.System(atoms=am.Atoms(pos=pos), box=self.box, pbc=[True, True, True])
-            self.natoms = len(pos)
+        r = case.get('pbcrot', 0)
+        order = PBCS[r % 8:] + PBCS[:r % 8]
+        self.pbcs = order[::-1] if r >= 8 else order
 
     def args(self):
         case = self.case
         if self.route == 'sys_idx':
             return (_index(0, self.n0, self.natoms, case['idx']), _index(self.n0, self.n1, self.natoms, case['idx']))
         how = case['spell']
+        if self.route != 'func':    # System.* documents integers as atom indices: whole numbers are spelled as floats there
+            how = {'intlist': 'list', 'intarray': 'array'}.get(how, how)
         if self.route == 'sys_mix':
-            return (_spell(self.P0, case['flat0'], 'list' if how == 'intlist' else how),
-                    _index(self.n0, self.n1, self.natoms, case['idx']))
-        if how == 'intlist' and self.route != 'func':
-            how = 'list'
+            return (_spell(self.P0, case['flat0'], how), _index(self.n0, self.n1, self.natoms, case['idx']))
         return (_spell(self.P0, case['flat0'], how), _spell(self.P1, case['flat1'], how))
 
     def call(self, what, pbc):
@@ -168,14 +409,14 @@ class Setup:
 
     def labels(self):
         case = self.case
-        labs = gens.cell_labels(case['cell'])
+        labs = gens.cell_labels(case['cell']) | self.labs
         labs.add('shape_%s-%s' % ('1' if self.n0 == 1 else 'N', '1' if self.n1 == 1 else 'N'))
         labs.add('route_' + self.route)
         if self.route in ('sys_idx', 'sys_mix'):
             labs.add('idx_' + case['idx'])
         if self.route != 'sys_idx':
             labs.add('spell_' + case['spell'])
-            if case['spell'] == 'intlist' and self.route == 'func' and np.all(self.P0 == np.rint(self.P0)) and np.all(self.P1 == np.rint(self.P1)):
+            if case['spell'] in ('intlist', 'intarray') and self.route == 'func' and np.all(self.P0 == np.rint(self.P0)) and np.all(self.P1 == np.rint(self.P1)):
                 labs.add('int_typed_positions')
         labs.add('kind_' + case['kind'].split('+')[0])
         if '+near' in case['kind']:
@@ -252,7 +493,7 @@ def nontrivial_labels(L27, Ld, atol, pbc, labs):
 def oracle_lattice(case):
     S = Setup(case)
     labs = S.labels()
-    for pbc in PBCS:
+    for pbc in S.pbcs:
         d = S.dvect(pbc)
         where = 'dvect[%s] pbc=%r' % (S.route, pbc)
         n = check_lattice(d, S.D0, S.V, S.inv, pbc, S.sc, S.cond, where)
@@ -268,7 +509,7 @@ def oracle_lattice(case):
 def oracle_best27(case):
     S = Setup(case)
     labs = S.labels()
-    for pbc in PBCS:
+    for pbc in S.pbcs:
         d = S.dvect(pbc)
         where = 'dvect[%s] pbc=%r' % (S.route, pbc)
         _, C, L27 = candidates(S.D0, S.V, pbc)
@@ -283,9 +524,14 @@ def oracle_best27(case):
 def oracle_mag(case):
     S = Setup(case)
     labs = S.labels()
-    for pbc in PBCS:
-        d = S.dvect(pbc)
-        m = S.dmag(pbc)
+    for pbc in S.pbcs:
+        if case.get('magfirst'):
+            labs.add('dmag_first')
+            m = S.dmag(pbc)
+            d = S.dvect(pbc)
+        else:
+            d = S.dvect(pbc)
+            m = S.dmag(pbc)
         where = 'dmag[%s] pbc=%r' % (S.route, pbc)
         Ld = np.sqrt((d * d).sum(axis=1))
         diff = np.abs(m - Ld)
@@ -317,7 +563,7 @@ def oracle_true_nearest(case):
     incell = np.broadcast_to(in0, (S.N,)) & np.broadcast_to(in1, (S.N,))
     onface = (np.broadcast_to(np.any((S.S0 == 0) | (S.S0 == 1), axis=1), (S.N,))
               | np.broadcast_to(np.any((S.S1 == 0) | (S.S1 == 1), axis=1), (S.N,))) & incell
-    for pbc in PBCS:
+    for pbc in S.pbcs:
         d = S.dvect(pbc)
         where = 'dvect[%s] pbc=%r' % (S.route, pbc)
         Ld = np.sqrt((d * d).sum(axis=1))
@@ -384,48 +630,41 @@ def _same_choice(a, b, L27, atol):
     return None
 
 
-def oracle_displacement(case):
-    import atomman as am
-    c0, c1 = case['cell0'], case['cell1']
-    box0 = am.Box(vects=gens.cell_vects(c0), origin=gens.cell_origin(c0))
-    box1 = am.Box(vects=gens.cell_vects(c1), origin=gens.cell_origin(c1))
+def _judge_displacement(am, sys0, sys1, ref, pbcs, pbc_other, labs, final=True):
+    """displacement(sys0, sys1, ref) in the state the two systems are in NOW, for each periodicity setting in `pbcs` of the
+    reference system (the other one keeps pbc_other)"""
+    box0, box1 = sys0.box, sys1.box
     V0, V1 = np.array(box0.vects, dtype=float), np.array(box1.vects, dtype=float)
-    P0 = np.array(case['rel0'], dtype=float) @ V0 + np.array(box0.origin, dtype=float)
-    P1 = np.array(case['rel1'], dtype=float) @ V1 + np.array(box1.origin, dtype=float)
+    P0, P1 = np.array(sys0.atoms.pos, dtype=float), np.array(sys1.atoms.pos, dtype=float)
     N = len(P0)
-    ref = case['ref']
-    labs = {'mode_' + case['mode'], 'ref_' + str(ref)}
-    labs |= {'cell0_' + l for l in gens.cell_labels(c0)}
     D0 = P1 - P0
-    pbc_other = PBCS[case['pbc_other']]
-    sys0 = am.System(atoms=am.Atoms(pos=P0.copy()), box=box0, pbc=pbc_other)
-    sys1 = am.System(atoms=am.Atoms(pos=P1.copy()), box=box1, pbc=pbc_other)
+    stage = '' if final else ' [before the systems were changed in place]'
     use_final = ref in ('final', 'default')
     refsys, refbox, Vr = (sys1, box1, V1) if use_final else (sys0, box0, V0)
-    if np.abs(V0 - V1).max() > 1e-6 * np.abs(V0).max():
+    if final and np.abs(V0 - V1).max() > 1e-6 * np.abs(V0).max():
         labs.add('boxes_differ')
     if ref is None:
         disp = np.asarray(am.displacement(sys0, sys1, box_reference=None))
-        require(disp.shape == (N, 3), lambda: 'displacement(None) returned shape %r for %d atoms' % (disp.shape, N))
+        require(disp.shape == (N, 3), lambda: 'displacement(None)%s returned shape %r for %d atoms' % (stage, disp.shape, N))
         err = np.abs(disp - D0).max()
         require(err <= 4 * EPS * max(np.abs(P0).max(), np.abs(P1).max()),
-                lambda: 'displacement(box_reference=None) differs from pos_1 - pos_0 by %.3g' % err)
-        if np.any(np.abs(D0) > 0):
+                lambda: 'displacement(box_reference=None)%s differs from pos_1 - pos_0 by %.3g' % (stage, err))
+        if final and np.any(np.abs(D0) > 0):
             labs.add('nt_direct')
-        return labs
+        return
     inv = np.linalg.inv(Vr)
     cond = float(np.linalg.cond(Vr))
     sc = np.linalg.norm(D0, axis=1) + float(np.linalg.norm(Vr, axis=1).sum())
     atol = 32 * EPS * sc
-    for pbc in PBCS:
+    for pbc in pbcs:
         refsys.pbc = pbc
-        if pbc != pbc_other:
+        if final and pbc != pbc_other:
             labs.add('pbc_differ')
         if ref == 'default':
             disp = np.asarray(am.displacement(sys0, sys1))
         else:
             disp = np.asarray(am.displacement(sys0, sys1, box_reference=ref))
-        where = 'displacement(box_reference=%r) ref pbc=%r other pbc=%r' % (ref, pbc, pbc_other)
+        where = 'displacement(box_reference=%r)%s ref pbc=%r other pbc=%r' % (ref, stage, pbc, pbc_other)
         require(disp.shape == (N, 3) and disp.dtype.kind == 'f', lambda: '%s returned shape %r dtype %r for %d atoms' % (where, disp.shape, disp.dtype, N))
         require(bool(np.all(np.isfinite(disp))), lambda: '%s returned non-finite values' % where)
         disp = np.array(disp, dtype=float)
@@ -437,41 +676,136 @@ def oracle_displacement(case):
             one = np.asarray(am.dvect(P0[i], P1[i], refbox, pbc), dtype=float).reshape(3)
             msg = _same_choice(disp[i], one, L27[i], float(atol[i]))
             require(msg is None, lambda: '%s: atom %d: displacement vs dvect of the same atom: %s' % (where, i, msg))
-        if any(pbc) and np.any(L27[:, 0] > Ld * (1 + 1e-9) + 8 * atol):
+        if final and any(pbc) and np.any(L27[:, 0] > Ld * (1 + 1e-9) + 8 * atol):
             labs.add('nt')
             if pbc != pbc_other:
                 labs.add('nt_pbc_differ')
             if 'boxes_differ' in labs:
                 labs.add('nt_boxes_differ')
+            if 'hist_changed' in labs:
+                labs.add('nt_hist_changed')
+            if ('int_stored_0' in labs or 'int_given_0' in labs) and np.any(np.abs(disp - np.rint(disp)) > 1e-3):
+                labs.add('nt_int0_fractional')
     refsys.pbc = pbc_other
+
+
+def oracle_displacement(case):
+    import atomman as am
+    c = [case['cell0'], case['cell1']]
+    hist = case.get('hist')
+    cart = bool(case.get('cart'))
+    itype = case.get('itype')
+    build = case.get('build', 'abs')
+    R = [np.array(case['rel0'], dtype=float), np.array(case['rel1'], dtype=float)]
+    ints = [cart and itype in ('0', 'both'), cart and itype in ('1', 'both')]
+    ref = case['ref']
+    labs = {'mode_' + case['mode'], 'ref_' + str(ref)}
+    labs |= {'cell0_' + l for l in gens.cell_labels(c[0])}
+    pbc_other = PBCS[case['pbc_other']]
+    hows = [None, None]
+    if hist is not None:
+        labs.add('hist')
+        hows = [hist['how0'], hist['how1']]
+        for k in (0, 1):
+            if ints[k] and hows[k] not in _STILL:
+                hows[k] = 'sys_box_set'         # integer-stored atoms are not moved (see _STILL)
+    if build == 'sharedbox' and (case['mode'] != 'same' or 'wrap' in hows):
+        build = 'abs'
+    if cart:
+        build = 'abs'
+    labs.add('build_' + build)
+
+    def positions(k, V, o, widen=False):
+        """(Cartesian, relative or None) of system k in the cell V, o"""
+        if cart and not widen:
+            return R[k], None
+        S = (R[k] - o) @ np.linalg.inv(V) if cart else R[k]
+        if widen:
+            S = 1.5 * S - 0.25
+        return S @ V + o, S
+
+    # ---- the two System objects in their first state
+    systems = []
+    for k in (0, 1):
+        first = c[k] if (hist is None or hows[k] == 'wrap') else hist['cell%d' % k]
+        if k == 1 and build == 'sharedbox':
+            box = systems[0].box
+        else:
+            box = am.Box(vects=gens.cell_vects(first), origin=gens.cell_origin(first))
+        P, S = positions(k, np.array(box.vects, dtype=float), np.array(box.origin, dtype=float), widen=(hows[k] == 'wrap'))
+        if ints[k]:
+            require(bool(np.all(P == np.rint(P))), lambda: 'harness: positions of system %d are not whole numbers' % k)
+            system = am.System(atoms=am.Atoms(pos=_int_form(P, case['iform'])), box=box, pbc=pbc_other)
+            labs.add(('int_stored_%d' if system.atoms.pos.dtype.kind in 'iu' else 'int_given_%d') % k)
+        elif build == 'scale':
+            system = am.System(atoms=am.Atoms(pos=np.array(S)), box=box, pbc=pbc_other, scale=True)
+        elif build == 'safecopy':
+            system = am.System(atoms=am.Atoms(pos=np.array(P)), box=box, pbc=pbc_other, safecopy=True)
+        else:
+            system = am.System(atoms=am.Atoms(pos=np.array(P)), box=box, pbc=pbc_other)
+        systems.append(system)
+    sys0, sys1 = systems
+    # ---- history on these objects
+    if hist is not None:
+        V_first = [np.array(s.box.vects, dtype=float) for s in systems]
+        if hist['warm']:
+            labs.add('hist_warm')
+            _judge_displacement(am, sys0, sys1, ref, [PBCS[hist['wpbc']]], pbc_other, labs, final=False)
+        for k in (0, 1):
+            if k == 1 and build == 'sharedbox':
+                hows[1] = 'vects='
+            hows[k] = mutate_box(systems[k].box, systems[k], hows[k], c[k], wrap_pbc(hist['wpbc']))
+            systems[k].pbc = pbc_other
+            labs.add('hist_' + hows[k])
+        for k in (0, 1):
+            if not ints[k]:
+                box = systems[k].box
+                P, S = positions(k, np.array(box.vects, dtype=float), np.array(box.origin, dtype=float))
+                set_positions(systems[k], P, S, hist['setpos'], hows[k] == 'sys_box_set_scale')
+        refk = 1 if ref in ('final', 'default') else 0
+        if ref is not None and np.abs(np.array(systems[refk].box.vects) - V_first[refk]).max() > 1e-6 * np.abs(V_first[refk]).max():
+            labs.add('hist_changed')
+    # ---- the judged state
+    _judge_displacement(am, sys0, sys1, ref, PBCS, pbc_other, labs)
     return labs
 
 
 _ROUTES = {'route_sys_idx': 0.1, 'route_sys_pos': 0.05, 'route_sys_mix': 0.045}
 _SHAPES = {'shape_1-N': 0.12, 'shape_N-1': 0.12, 'shape_N-N': 0.12, 'shape_1-1': 0.12}
-_COMMON = dict(_ROUTES, **_SHAPES, nt=0.36, nt_mixed=0.36, tilted=0.33, rotated=0.19, origin=0.23, kind_dyadic=0.045,
-               kind_intcart=0.02)
+# object history: the Box object described another cell first / the judged functions saw it in that state / was changed
+# through each public way (guards at about half the observed share)
+_HIST = {'hist': 0.2, 'hist_changed': 0.18, 'hist_warm_changed': 0.13, 'hist_wrap': 0.02, 'hist_sys_box_set_scale': 0.018,
+         'hist_sys_box_set': 0.015, 'hist_vects=': 0.05, 'hist_set_vects': 0.025}
+_COMMON = dict(_ROUTES, **_SHAPES, **_HIST, nt=0.36, nt_mixed=0.36, tilted=0.33, rotated=0.19, origin=0.23, kind_dyadic=0.06,
+               kind_intcart=0.045)
+_FORMS = {'spell_fview': 0.03, 'spell_tuple': 0.03, 'spell_list': 0.03, 'spell_intlist': 0.03, 'spell_readonly': 0.03,
+          'spell_forder': 0.03, 'spell_intarray': 0.03, 'int_given_positions': 0.013}
 
 CLAUSES = [
     Clause('lattice', oracle_lattice, gens_c02.general, quick=12000, thorough=200000,
-           min_share=dict(_COMMON, multi_axis_shift=0.22, idx_mask=0.02, idx_slice=0.02, idx_neg=0.02, idx_int=0.025,
-                          idx_npint=0.015, spell_fview=0.05, spell_tuple=0.05, spell_list=0.05, spell_intlist=0.04),
+           min_share=dict(_COMMON, **_FORMS, multi_axis_shift=0.22, idx_mask=0.02, idx_slice=0.02, idx_neg=0.02, idx_int=0.025,
+                          idx_npint=0.015),
            desc='d - (p1-p0) is an integer combination of the cell vectors, zero along non-periodic directions, for all 8 pbc; '
-                'one result row per broadcast pair; am.dvect and System.dvect (positions, atom indices, mixed)'),
+                'one result row per broadcast pair; am.dvect and System.dvect (positions, atom indices, mixed); also on Box / '
+                'System objects that described another cell before and were changed in place'),
     Clause('best27', oracle_best27, gens_c02.general, quick=12000, thorough=200000, min_share=dict(_COMMON),
            desc='|d| is not longer than any of the 27 (9/3/1) candidates with shifts -1,0,+1 on periodic axes, for all 8 pbc'),
     Clause('mag', oracle_mag, gens_c02.general, quick=10000, thorough=160000,
-           min_share=dict(_COMMON, idx_mask=0.02, idx_slice=0.02, idx_int=0.025),
-           desc='dmag equals |dvect| (same route, same inputs) and is not longer than any candidate; one value per broadcast pair'),
+           min_share=dict(_COMMON, **_FORMS, idx_mask=0.02, idx_slice=0.02, idx_int=0.025, dmag_first=0.2),
+           desc='dmag equals |dvect| (same route, same inputs, either order of the two calls) and is not longer than any candidate; '
+                'one value per broadcast pair; also on objects with a history (dmag/dvect called before the box was changed in place)'),
     Clause('true_nearest', oracle_true_nearest, gens_c02.premise_heavy, quick=10000, thorough=160000,
            min_share={'nt': 0.35, 'premise_tilted': 0.2, 'premise_tilted_wrapped': 0.1, 'premise_ortho': 0.2,
                       'premise_fails_incell': 0.2, 'premise_onface': 0.19, 'unique_vector_checked': 0.4, 'tie': 0.02,
-                      'beyond27': 0.08, 'kind_dyadic': 0.08},
+                      'beyond27': 0.08, 'kind_dyadic': 0.08, 'hist_changed': 0.18, 'hist_warm_changed': 0.13},
            desc='both points in the cell and (cell orthogonal or L* < half the smallest perpendicular width) => |d| equals the '
                 'minimum L* of an exhaustive lattice search (vector too when the minimiser is unique); always |d| >= L*'),
     Clause('displacement', oracle_displacement, gens_c02.displacement_cases, quick=8000, thorough=120000,
            min_share={'nt': 0.3, 'nt_pbc_differ': 0.3, 'nt_boxes_differ': 0.2, 'ref_initial': 0.14, 'ref_default': 0.07,
-                      'ref_None': 0.07, 'ref_final': 0.2},
+                      'ref_None': 0.07, 'ref_final': 0.2, 'hist': 0.2, 'hist_changed': 0.15, 'nt_hist_changed': 0.12,
+                      'hist_warm': 0.07, 'hist_wrap': 0.03, 'hist_sys_box_set_scale': 0.05, 'int_given_0': 0.1,
+                      'int_given_1': 0.035, 'nt_int0_fractional': 0.05, 'build_scale': 0.06, 'build_safecopy': 0.07},
            desc="displacement(s0, s1, box_reference) under 'final'/default, 'initial', None: lattice + 27-candidate oracles under "
-                'the reference cell and pbc, and equal to dvect atom by atom; all 8 pbc of the reference system'),
+                'the reference cell and pbc, and equal to dvect atom by atom; all 8 pbc of the reference system; systems holding '
+                'whole-number positions as integers, built with scale=True / safecopy / a shared Box, or changed in place before'),
 ]
